@@ -14,6 +14,8 @@ import RotoV.Lemmas.LayoutClone
 import RotoV.Lemmas.LayoutEq
 import RotoV.Lemmas.LayoutTotal
 import RotoV.Lemmas.LayoutDrop
+import RotoV.Lemmas.LayoutRead
+import RotoV.Lemmas.LayoutWrite
 
 namespace RotoV.C02
 open RotoV RotoV.Layout RotoV.LayoutStd RotoV.Gen.LayoutGen
@@ -383,5 +385,54 @@ theorem reference_types_are_pointers (t : Ty) :
       lowerType t = .ok none ∨ (∃ s, lowerType t = .ok (some (.int s))) ∨
         (∃ s, lowerType t = .ok (some (.float s)))) :=
   reference_iff_pointer t
+
+/-- **`read_component`** (T4 at the level of values) — field reads, match
+    bindings and `?` read exactly the component the source names: if the bytes
+    at `a` decode to `val` at type `t`, and the projection path `p` fits `val`
+    (every field exists; every variant step names the variant that is live in
+    `val`), then `Lowerer::location` neither panics nor answers `uninhabited`,
+    and the bytes at the offset it yields decode — at the type it yields — to
+    exactly the component `val.project p`. For all type trees, paths of any
+    depth, and memories. -/
+theorem read_component (m : Mem) (t : Ty) (a : Nat) (val comp : V) (p : List Proj)
+    (hd : decode m t a = some val) (hp : val.project p = some comp) :
+    ∃ off tp, locate t p 0 = .ok (some (off, tp)) ∧ decode m tp (a + off) = some comp := by
+  obtain ⟨off, tp, h1, h2⟩ := decode_project m p t a 0 val comp hd hp
+  exact ⟨off, tp, by simpa using h1, h2⟩
+
+/-- non-vacuity: reading `.1.V1.0` of `{a: u8, e: enum { V0, V1(u8) }}` holding `V1(42)` -/
+example :
+    let t := Ty.record (.cons (.leaf .int 1 1) (.cons (.enum (.cons .nil (.cons (.cons (.leaf .int 1 1) .nil) .nil))) .nil))
+    let m : Mem := fun x => if x = 1 then 1 else if x = 2 then 42 else 7
+    ∃ val, decode m t 0 = some val ∧ val.project [.field 1, .variantField 1 0] = some (.leaf .int [42]) ∧
+      locate t [.field 1, .variantField 1 0] 0 = .ok (some (2, .leaf .int 1 1)) :=
+  ⟨_, rfl, rfl, rfl⟩
+
+/-- **`write_component`** (T4 at the level of values) — nested field writes
+    write exactly the component the source names: let the bytes at `a` decode
+    to `val` at an inhabited type `t`, let the path `p` fit `val`, and let `m'`
+    differ from `m` only inside the byte range `Lowerer::location` computes for
+    `p` (offset `off`, size of the component's layout), where it now holds
+    bytes that decode to `new`. Then the whole value decodes to
+    `val.update p new`: the named component is replaced, every other field,
+    every enclosing tag and every sibling at every depth is unchanged. For all
+    type trees, paths of any depth (through records and live variants), and
+    memories. -/
+theorem write_component (m m' : Mem) (t : Ty) (L : Layout) (hL : layoutOf t = some L) (a : Nat)
+    (val old new : V) (p : List Proj) (hd : decode m t a = some val) (hp : val.project p = some old)
+    (off : Nat) (tp : Ty) (lp : Layout) (hloc : locate t p 0 = .ok (some (off, tp)))
+    (hlp : layoutOf tp = some lp)
+    (hout : ∀ x, (x < a + off ∨ a + off + lp.size ≤ x) → m' x = m x)
+    (hnew : decode m' tp (a + off) = some new) :
+    decode m' t a = val.update p new :=
+  decode_update m m' p t L a 0 val old new off tp lp hL hd hp (by simpa using hloc) hlp hout hnew
+
+/-- non-vacuity of `write_component`: overwriting `.1.V1.0` of
+    `{a: u8, e: enum { V0, V1(u8) }}` holding `(7, V1(42))` with 9 -/
+example :
+    let t := Ty.record (.cons (.leaf .int 1 1) (.cons (.enum (.cons .nil (.cons (.cons (.leaf .int 1 1) .nil) .nil))) .nil))
+    let m : Mem := fun x => if x = 1 then 1 else if x = 2 then 42 else 7
+    decode (m.write 2 [9]) t 0 =
+      some (.rec_ (.cons (.leaf .int [7]) (.cons (.enm 1 (.cons (.leaf .int [9]) .nil)) .nil))) := rfl
 
 end RotoV.C02
